@@ -5,7 +5,8 @@ import GoldModel.Lemmas.ProgRoundTrip
 
 `Stmt`, `Decl`, `Prog` (`Model/Prog.lean`) are the abstract syntax the property speaks about:
 
-* statements — assignment `lhs = e` (also `-=`, `+=`, `:=`; `lhs` an identifier), expression
+* statements — assignment `lhs = e` (also `-=`, `+=`, `:=`; `lhs` whatever `ExprSpec.lhsb` admits: for
+  `Ex` an identifier), expression
   statement, `return e`, `exit`/`break`/`continue`, `var x : T`, and the blocks
   `if e … [elseif e …]* [else …] endif`, `while e … endwhile`, `loop … endloop`,
   `for i = e to|downto e [step e] … endfor`, `foreach e … endfor`, `repeat … until e`, whose bodies
@@ -23,7 +24,7 @@ contains no terminator of the method (`wfb` is the executable form, `…wfb_iff`
 Expressions are a PARAMETER (`ExprSpec ε`): the statement layer needs only `ExprSpec.Sound` —
 `parse_expr (print e ++ k) = (tree e, k)` with no diagnostic before every continuation `k` that
 cannot extend an expression, and "an expression that may stand as a statement is not taken by
-`parse_assignment`".  `exSpec_sound` discharges it for `Ex` by `expr_roundtrip`; nothing here looks
+`parse_assignment`", and "an assignment target is taken by `parse_dot_ops`".  `exSpec_sound` discharges it for `Ex` by `expr_roundtrip`; nothing here looks
 inside `Ex`, so the theorems extend to whatever `Ex` grows into.
 
 The theorems are about the model of `src/parser/{mod,body_parser}.rs` (`Model/Grammar.lean`, byte-exact
@@ -96,6 +97,13 @@ omit hX
 theorem exSpec_sound : exSpec.Sound where
   parses := fun e h k hk => expr_roundtrip e ((wfb_iff e 8).mp h) k hk
   noAssign := fun e _ hs k _ => noAssign_of_first e.toks k hs
+  lhs := fun e h op r hop => by
+    cases e with
+    | atom t =>
+      have hs0 : Stop 0 (op :: r) := by
+        intro t' r' e'; cases e'; exact (assign_table _ hop).1
+      exact parses_dotops_ident t (op :: r) (by simpa [exSpec] using h) hs0
+    | _ => simp [exSpec] at h
 
 /-- **programs over `Ex`**: `parse_gold (print p) = (tree p, no diagnostics)` -/
 theorem prog_roundtrip_ex (p : Prog Ex) (h : Prog.WF exSpec p) :
@@ -162,7 +170,7 @@ private def sample : Prog Ex :=
         .forS (tk Kind.For "for" 5 2) (tk Kind.Identifier "i" 5 6) (tk Kind.Equals "=" 5 8) (num "1" 5 10)
           (tk Kind.To "to" 5 12) (idt "n" 5 15) (some (tk Kind.Step "step" 5 17, num "2" 5 22))
           [ .ifS (tk Kind.If "if" 6 4) (.bin (idt "i" 6 7) (tk Kind.LessThan "<" 6 9) (idt "m" 6 11))
-              [ .assign (tk Kind.Identifier "m" 7 6) (tk Kind.Equals "=" 7 8)
+              [ .assign (idt "m" 7 6) (tk Kind.Equals "=" 7 8)
                   (.bin (idt "m" 7 10) (tk Kind.Minus "-" 7 12) (idt "i" 7 14)) ]
               (.elif (tk Kind.ElseIf "elseif" 8 4) (.bin (idt "i" 8 11) (tk Kind.Equals "=" 8 13) (num "3" 8 15))
                 [ .ctl (tk Kind.Break "break" 9 6) ]
